@@ -80,6 +80,11 @@ def classify_dec(ret: Optional[Sym], value: Sym) -> Tuple[str, Any]:
         if len(c[2]) == 2 and c[2][1] == value:
             f = c[2][0]
             return "struct", f[1] if f[0] == "c" else show(f)
+    if ret[0] == "call" and dotted(ret[1]) == "int.from_bytes" and ret[2] and ret[2][0] == value:
+        kw = dict(ret[3])
+        order = ret[2][1] if len(ret[2]) > 1 else kw.get("byteorder", C("big"))
+        signed = kw.get("signed", C(False))
+        return "intbytes", (order[1] if order[0] == "c" else show(order), signed[1] if signed[0] == "c" else show(signed))
     if ret[0] == "op" and ret[1] == "<" and ret[2] == C(0) and ret[3] == value:
         return "bool", None
     if ret[0] == "op" and ret[1] == "not" and ret[2] == OP("==", value, C(0)):
@@ -304,10 +309,18 @@ def rule_T1(ctx, rule: str = "T1") -> None:
         elif t in ("float", "double", "fixed32", "fixed64", "sfixed32", "sfixed64"):
             fe = [d for _, k, d in encs if k == "struct"]
             fd = [d for _, k, d, _ in decs if k == "struct"]
-            if kinds != ["struct"] or dkinds != ["struct"]:
+            ib = [d for _, k, d, _ in decs if k == "intbytes"]
+            if kinds == ["struct"] and dkinds == ["intbytes"] and t not in ("float", "double") and isinstance(fe[0], str):
+                # int.from_bytes(value, "little", signed=S) is the inverse of struct.pack("<I/<i/<Q/<q") for integers
+                signed_fmt = fe[0][-1:].islower()
+                if any(o != ("little", signed_fmt) for o in ib):
+                    ok, why = False, f"packed with {fe} but decoded with int.from_bytes{ib}: byte order / signedness differ"
+            elif kinds != ["struct"] or dkinds != ["struct"]:
                 ok, why = False, f"fixed-width type must use struct on both sides: enc={kinds} dec={dkinds}"
             elif fe != fd:
                 ok, why = False, f"struct format differs: pack {fe} vs unpack {fd}"
+            if not ok:
+                pass
             elif w not in WIDTH or not isinstance(fe[0], str) or SPEC_STRUCT_SIZE.get(fe[0][-1:]) != WIDTH.get(w):
                 ok, why = False, f"format {fe} does not have the width of wire type {w}"
             else:
@@ -965,3 +978,28 @@ def rule_Z1(ctx, rule: str = "Z1") -> None:
         else:
             ctx.refuted(rule, f"zigzag-decode[{t}]", ";".join(f"{g}" for g, _ in res), locd,
                         f"{t} is decoded as {show(term)}: on inputs 2k / 2k+1 it yields {[g for g, _ in res]}, zig-zag decoding is k / -k-1", f"parse a {t} field")
+
+
+def rule_M6(ctx, rule: str = "M6") -> None:
+    """a fixed-width payload is decoded by something that validates its length (struct.unpack does; int.from_bytes does not)"""
+    m = model(ctx)
+    mod = m.mod
+    loc = mod.loc(mod.func("Message._postprocess_single"))
+    ln = ("call", N("len"), (m.dvalue,), ())
+    for t in ("float", "double", "fixed32", "fixed64", "sfixed32", "sfixed64"):
+        w = m.wire_of(t)
+        if w is None:
+            continue
+        bad = None
+        for val, kind, d, ret in m.dec[(t, w)]:
+            if kind in ("struct", "raise"):
+                continue
+            checked = any(contains(k, ln) for k in val)
+            if not checked:
+                bad = (kind, ret)
+        if bad:
+            ctx.refuted(rule, f"fixed-payload-length[{t}]", bad[0], loc,
+                        f"a {t} payload is decoded by {show(bad[1]) if bad[1] else bad[0]}, which accepts any number of bytes: a truncated or ragged fixed-width payload (e.g. a packed run whose length is not a multiple of the width) "
+                        "is decoded into a wrong number instead of being rejected", f"M().parse(<{t} field cut after 2 bytes>)")
+        else:
+            ctx.proved(rule, f"fixed-payload-length[{t}]", loc)
